@@ -159,6 +159,46 @@ func generateMore(w *bufio.Writer, r *rand.Rand, kind string, n int, args []stri
 		genApiExhaustive(w, n)
 	case "api":
 		genApiRandom(w, r, n, 60)
+	case "prog":
+		// args: mode exprDepth flags(bit0 signRuns, 1 divs, 2 equs, 3 asserts, 4 fors, 5 illegal88, 6 bigM) maxInstr
+		mode, depth, fl, mi := int64(2), 3, int64(4), 6
+		if len(args) > 0 {
+			mode, _ = strconv.ParseInt(args[0], 10, 64)
+		}
+		if len(args) > 1 {
+			depth, _ = strconv.Atoi(args[1])
+		}
+		if len(args) > 2 {
+			fl, _ = strconv.ParseInt(args[2], 10, 64)
+		}
+		if len(args) > 3 {
+			mi, _ = strconv.Atoi(args[3])
+		}
+		genProg(w, r, n, progOpts{mode: mode, exprDepth: depth, signRuns: fl&1 != 0, divs: fl&2 != 0, equs: fl&4 != 0,
+			asserts: fl&8 != 0, fors: fl&16 != 0, illegal88: fl&32 != 0, maxInstr: mi}, fl&64 != 0)
+	case "listing":
+		mode := int64(2)
+		if len(args) > 0 {
+			mode, _ = strconv.ParseInt(args[0], 10, 64)
+		}
+		for k := 0; k < n; k++ {
+			cfg := pickCfg(r, mode, false)
+			if cfg.m > 1<<20 {
+				cfg.m = 55440 // the listing needs a simulator, i.e. an allocated core
+			}
+			ln := 1 + r.Intn(8)
+			c := []int64{12, mode, cfg.m, int64(r.Intn(ln)), int64(ln)}
+			for i := 0; i < ln; i++ {
+				c = append(c, genLegalInstr(r, mode, cfg.m)...)
+			}
+			wr(w, c)
+		}
+	case "warriors":
+		mode := int64(2)
+		if len(args) > 0 {
+			mode, _ = strconv.ParseInt(args[0], 10, 64)
+		}
+		genWarriors(w, r, n, mode, len(args) > 1 && args[1] == "1")
 	case "rot":
 		genRot(w, r, n)
 	case "config":
